@@ -196,6 +196,7 @@ func vConcInt(x int) int             { return x }
 func vConcInt64(x int64) int64       { return x }
 func vConcString(s string) string    { return s }
 func vMapOrder(on bool)              {}
+func vStubOff(name string, off bool) {}
 func vFmtFork(on bool)               {}
 func vTranscript() string            { return "" }
 func vEvents() []string              { return vState.events }
